@@ -9,6 +9,7 @@ import (
 	"sort"
 	"strings"
 	"sync"
+	"unicode"
 	"unicode/utf8"
 
 	gregexp "github.com/grafana/regexp"
@@ -27,6 +28,7 @@ type shardCase struct {
 	searcher zoekt.Searcher
 	repos    []*ref.Repo
 	byKey    map[string]*docRef
+	queries  []query.Q // set for generated families that carry their own queries
 }
 
 type docRef struct {
@@ -81,6 +83,31 @@ var (
 )
 
 // matrixCorpora builds the G-shards family once per process.
+// nearMissAlts returns the runes that replace r in the near-miss documents.
+func nearMissAlts(r rune) []rune {
+	var out []rune
+	add := func(x rune) {
+		if x == r || x == 0 || !utf8.ValidRune(x) {
+			return
+		}
+		for _, o := range out {
+			if o == x {
+				return
+			}
+		}
+		out = append(out, x)
+	}
+	if r < 0x80 {
+		add(r ^ 0x20) // other case for letters; for everything else a different character that must not match
+	}
+	for f := unicode.SimpleFold(r); f != r; f = unicode.SimpleFold(f) {
+		add(f)
+	}
+	add('#')
+	add(r + 1)
+	return out
+}
+
 // first members of the ASCII pairs (x, x|0x20) that are not letters
 var matrixPunctPairs = []byte{'@', '[', '\\', ']', '^', '_', '\n', 0x10}
 
@@ -200,6 +227,51 @@ func matrixCorpora(thorough bool) ([]*shardCase, error) {
 			}
 		}
 		add("punct", false, punct)
+		// near-miss family: candidate verification must look at EVERY rune of a literal. For a pattern P
+		// and each rune position i one shard holds P, the documents that differ from P only at i (other
+		// case, the byte with bit 0x20 flipped, an unrelated rune) and a filler that makes the trigrams
+		// covering position i frequent, so that the (rarest) trigrams the iterator selects do not cover i.
+		nid := uint32(40)
+		for pi, pat := range []string{"foo{bar}baz", `qux|quux\corge`, "ab[cd]ef^gh`ij", "héllo{wörld}x", "AbC_dEf@Ghi"} {
+			P := []rune(pat)
+			for i := range P {
+				nid++
+				rp := &ref.Repo{Name: fmt.Sprintf("nearmiss/p%d-%d", pi, i), ID: nid, Branches: []string{"HEAD"}}
+				variants := []string{pat}
+				for _, alt := range nearMissAlts(P[i]) {
+					v := append([]rune{}, P...)
+					v[i] = alt
+					variants = append(variants, string(v))
+				}
+				for vi, v := range variants {
+					rp.Docs = append(rp.Docs, &ref.Doc{Name: fmt.Sprintf("v%d.txt", vi), Content: []byte("call " + v + " now\n"), Branches: []string{"HEAD"}, Language: "Text"})
+				}
+				lo, hi := i-2, i+3
+				if lo < 0 {
+					lo = 0
+				}
+				if hi > len(P) {
+					hi = len(P)
+				}
+				var fill strings.Builder
+				for _, v := range variants {
+					fill.WriteString(strings.Repeat(string([]rune(v)[lo:hi])+" ", 60))
+					fill.WriteString("\n")
+				}
+				rp.Docs = append(rp.Docs, &ref.Doc{Name: "filler.txt", Content: []byte(fill.String()), Branches: []string{"HEAD"}, Language: "Text"})
+				add(fmt.Sprintf("nearmiss-p%d-%d", pi, i), false, rp)
+				if matrixErr != nil {
+					return
+				}
+				sc := matrixShards[len(matrixShards)-1]
+				sc.queries = append(sc.queries, gen.SubstringAtoms(variants, [][2]bool{{false, true}, {false, false}})...)
+				var res []string
+				for _, v := range variants {
+					res = append(res, gregexp.QuoteMeta(v))
+				}
+				sc.queries = append(sc.queries, gen.RegexpAtoms(res, [][2]bool{{false, true}})...)
+			}
+		}
 	})
 	return matrixShards, matrixErr
 }
@@ -207,6 +279,9 @@ func matrixCorpora(thorough bool) ([]*shardCase, error) {
 // matrixQueries returns the G-query family for a shard.
 func matrixQueries(sc *shardCase, thorough bool) []query.Q {
 	var qs []query.Q
+	if sc.queries != nil {
+		return sc.queries
+	}
 	switch {
 	case sc.name == "tokens":
 		res := []string{"abc.*abd", "abc(?s:.*)abd", "(?s)abc.*abd", "abd(?s:.*)abc", "abc[^x]*abd", "abc\\s+abd", "abc\nabd", "abc(?:\n| )abd", "abc.*xyz.*abd", "abc(?s:.*)xyz(?s:.*)abd",
